@@ -112,6 +112,22 @@ type Result struct {
 	Trace   []string
 }
 
+// sameHostSibling is a sibling asset on the host the tested text names (or, for a relative text, on
+// its parent's host) whose path holds the include-string and none of the excluded strings: whether
+// it is in scope depends on the configuration, the oracle judges it like every other request.
+func sameHostSibling(c *Case) string {
+	h := c.Tok.Host
+	if h == "" {
+		if u, err := url.Parse(c.Parent); err == nil {
+			h = u.Host
+		}
+	}
+	if h == "" || strings.ContainsAny(h, "[] %") {
+		h = "in.example"
+	}
+	return "http://" + h + "/x/a/sib.png"
+}
+
 var idSeq int
 
 func newItem(raw string) *models.Item {
@@ -204,6 +220,9 @@ func runCase(c *Case, res []*regexp.Regexp, trace bool) (r Result) {
 		}
 		if last && c.Pos.Sib == 1 {
 			add(newItem(sibURL))
+		}
+		if last && c.Pos.Sib == 3 {
+			add(newItem(sameHostSibling(c)))
 		}
 		add(child)
 		if last && c.Pos.Sib == 2 {
